@@ -15,13 +15,20 @@ def close(x, n, tol=1e-9):
     return abs(float(x) - float(n)) <= tol * max(1.0, abs(float(n)))
 
 
-def build(kind):
+def build(kind, form=0):
+    """The real EVSE for a kind of EVSEDefs.tla.  `form` selects how the level list of a finite-rate
+    EVSE is handed over (the constructor documents an iterable): the allowable set depends on the
+    values only (Levels(k) is a set), never on the container."""
     from acnportal.acnsim.models import EVSE, DeadbandEVSE, FiniteRatesEVSE
+    import numpy as np
     if kind["cls"] == "cont":
         return EVSE("E-1", max_rate=kind["max"] / U, min_rate=kind["min"] / U)
     if kind["cls"] == "deadband":
         return DeadbandEVSE("E-1", deadband_end=kind["end"] / U, max_rate=kind["max"] / U)
-    return FiniteRatesEVSE("E-1", [l / U for l in kind["levels"]])
+    lv = [l / U for l in kind["levels"]]
+    form = form % 6
+    arg = (lv, tuple(lv), np.array(lv), (x for x in lv), iter(lv), dict.fromkeys(lv).keys())[form]
+    return FiniteRatesEVSE("E-1", arg)
 
 
 def replay_case(b):
@@ -32,7 +39,8 @@ def replay_case(b):
     kind, V, T = b["kind"], b["v"], b["t"]
     with warnings.catch_warnings():
         warnings.simplefilter("ignore")
-        evse = build(kind)
+        form = int(jhash(b)[:4], 16)
+        evse = build(kind, form)
         net = ChargingNetwork()
         net.register_evse(evse, V, 0)
         sim = Simulator(net, BaseAlgorithm(), EventQueue(), datetime(2020, 1, 1), period=T, verbose=False)
@@ -58,9 +66,25 @@ def replay_case(b):
         # every advertised value is itself accepted (vacant station: no side effects)
         for a in list(adv) + [iface.max_pilot_signal("E-1")] + ([0] if kind["cls"] != "cont" else []):
             try:
-                build(kind).set_pilot(a, V, T)
+                build(kind, form + 1).set_pilot(a, V, T)
             except InvalidRateError:
                 return {"field": "advertised_value_rejected", "spec": "accepted", "impl": "InvalidRateError(%r)" % a}
+        # ... and what is advertised stays truthful whatever a caller does to the description it was handed
+        info = iface.infrastructure_info()
+        for arr in list(info.allowable_pilots) + [info.max_pilot, info.min_pilot, info.is_continuous]:
+            try:
+                arr[...] = 3.0
+            except (TypeError, ValueError):
+                pass
+        c1, a1 = iface.allowable_pilot_signals("E-1")
+        c1b, a1b = cont, adv
+        if (bool(c1), [float(x) for x in a1]) != (bool(c1b), [float(x) for x in a1b]):
+            return {"field": "advertised_after_caller_mutation", "spec": [bool(c1b), [float(x) for x in a1b]],
+                    "impl": [bool(c1), [float(x) for x in a1]]}
+        for name, got, want in (("Interface.max_pilot_signal(after mutation)", iface.max_pilot_signal("E-1"), b["max"] / U),
+                                ("Interface.min_pilot_signal(after mutation)", iface.min_pilot_signal("E-1"), b["min"] / U)):
+            if not close(got, want):
+                return {"field": name, "spec": want, "impl": float(got)}
         evs = {}
         for n, step in enumerate(b["ops"]):
             op = step["op"]
